@@ -18,7 +18,7 @@ type c14 struct{}
 func init() { Props["C14"] = &c14{} }
 
 func (c *c14) Rule() string {
-	return "seeded histories of 1-10 Extend calls (root, built-ins at depth 1-3 incl. lookups by alias, earlier extensions up to chains of 4) with overlapping DSL predicates (prefix/contains/length/limit clauses modelled on the run's inputs), each followed by a battery of detections through the three entry points over 4-8 inputs, lookups of every registered name/alias and of built-ins, and re-observation of values returned earlier; three out of four histories run on one task (exact expected value per operation), one out of four issues the Extend calls from one task while 1-3 others detect and look up (expected value: the model's answer for some extension prefix in force during the call). Non-trivial = at least one extension detector accepted an input in the run; distinct = distinct (history shape, accepting-extension sequence) hashes"
+	return "seeded histories of 1-10 Extend calls (root, built-ins at depth 1-3 incl. lookups by alias, earlier extensions up to chains of 4) with overlapping DSL predicates (prefix/contains/length/limit clauses modelled on the run's inputs), each followed by a battery of detections through the three entry points over 4-8 inputs, lookups of every registered name/alias and of built-ins, and re-observation of values returned earlier; templates: crowds (3-40 extensions on one parent), chains (2-6 nested accepting extensions), free histories - some with re-registrations (also identical ones), with extensions named like the charset-bearing built-ins, with colliding names (type+extension shared with a built-in or another extension, aliases equal to another format's type; Lookup judged by the depth-first order of the enlarged tree), with a trap detector that panics on poison inputs while the caller recovers (that call is not judged, every other one is), with limits up to 128 MiB; three out of four histories run on one task (exact expected value per operation), one out of four issues the Extend calls from one task while 1-3 others detect and look up (expected value: the model's answer for some extension prefix in force during the call). Non-trivial = at least one extension detector accepted an input in the run; distinct = distinct (history shape, accepting-extension sequence) hashes"
 }
 
 var c14Limits = []uint32{3072, 3072, 0, 16, 64, 5, 300}
@@ -247,6 +247,20 @@ func (c *c14) Plan(seed uint64, tier string, worker, workers, idx int) *Plan {
 
 func (c *c14) Check(rr *RunResult, st *Stats) []Failure {
 	fs := KernelFailures(rr, false)
+	if rr.Out.Class == "deadlock" && rr.Plan.Traps {
+		// A lock still held after a user-supplied detector panicked (no deferred
+		// unlock) blocks the next writer. Whether locks survive a panicking detector
+		// is stated nowhere: not a verdict.
+		for ti := range rr.W.Res {
+			for oi := range rr.W.Res[ti] {
+				if rr.W.Res[ti][oi].Panicked {
+					st.Probe("blocked_after_detector_panic_not_judged")
+					st.Inconclusive++
+					return nil
+				}
+			}
+		}
+	}
 	// Writes into memory the caller lent (alias backing arrays, input buffers)
 	// are C06's and C04's subject; here only their functional consequences
 	// (a corrupted alias no longer found by Lookup) count.
